@@ -39,6 +39,8 @@ public:
   template <class M> static size_t index_hash(size_t hp, size_t hv) { return M::index_hash(hp, hv); }
   template <class M> static size_t alt_index(size_t hp, uint8_t p, size_t i) { return M::alt_index(hp, p, i); }
   template <class M> static uint8_t partial_key(size_t h) { return M::partial_key(h); }
+  template <class M, class F> static void par_noexcept(M &m, size_t s, size_t e, F f) { m.parallel_exec_noexcept(s, e, f); }
+  template <class M, class F> static void par(M &m, size_t s, size_t e, F f) { m.parallel_exec(s, e, f); }
 };
 } // namespace libcuckoo
 
